@@ -327,4 +327,172 @@ theorem twoSewFree_pos (cfg : Cfg Val) {n : Nat} {u : Array Bool} {l r : Nat} {m
   rw [cellId_sameTopo st, hid, hmerge.other 0 _ (zero_notin_storagesOf cfg 1)]
   rfl
 
+/-! ## 2-sew of two darts that both have a successor -/
+
+/-- **a 2-sew of two darts with successors**, when the two end points of the new edge are different vertices
+    (`cell l ∪ cell (β1 r)` apart from `cell (β1 l) ∪ cell r`): darts outside the four cells keep their coordinates; each of
+    the two united pairs gets the merge of its two values (the common one, or the defined one) -/
+theorem twoSewBoth_pos (cfg : Cfg Val) (hlaw : cfg.law 0 = avgLaw) {n : Nat} {u : Array Bool} {l r : Nat}
+    {m m' : Map Val} {a : Unit} (hi : Inv n u m) (hfc : m.fc = 0) (hl : Live n u l) (hr : Live n u r) (hlr : l ≠ r)
+    (hbl : m.β 1 l ≠ 0) (hbr : m.β 1 r ≠ 0)
+    (s1 : ¬ VC m l r) (s2 : ¬ VC m l (m.β 1 l)) (s3 : ¬ VC m (m.β 1 r) r) (s4 : ¬ VC m (m.β 1 r) (m.β 1 l))
+    (h : run (twoSew2 cfg n l r) m = (.ok a, m')) :
+    StepOK n u m m' ∧
+    (∀ d, Valid m d → ¬ VC m d l → ¬ VC m d (m.β 1 r) → ¬ VC m d (m.β 1 l) → ¬ VC m d r → pos m' d = pos m d) ∧
+    ((∀ x y, pos m l = some x → pos m (m.β 1 r) = some y → x = y) →
+      ∀ d, Valid m d → (VC m d l ∨ VC m d (m.β 1 r)) → pos m' d = (pos m l).or (pos m (m.β 1 r))) ∧
+    ((∀ x y, pos m (m.β 1 l) = some x → pos m r = some y → x = y) →
+      ∀ d, Valid m d → (VC m d (m.β 1 l) ∨ VC m d r) → pos m' d = (pos m (m.β 1 l)).or (pos m r)) := by
+  obtain ⟨i', _, _, _⟩ := twoSew2_eff cfg n hi hl hr hlr h
+  have hwf := hi.wf
+  have h' : run (twoSew2 cfg m.n l r) m = (.ok a, m') := by rw [hi.n_eq]; exact h
+  have hL := hi.inUse hl
+  have hR := hi.inUse hr
+  obtain ⟨hwf1, st, ⟨R, hR', hcells⟩, hids, ⟨ma, mb, mc, md, MA, MB, MC, MD, ME⟩⟩ :=
+    C04_twoSew2_cells cfg m m' l r a hwf hL hR hlr hfc hbl hbr h'
+  have hVl : Valid m l := ⟨hL.1, hL.2.1⟩
+  have hVr : Valid m r := ⟨hR.1, hR.2.1⟩
+  have hVp : Valid m (m.β 1 r) := ⟨hbr, hwf.range 1 (by omega) r hR.2.1⟩
+  have hVq : Valid m (m.β 1 l) := ⟨hbl, hwf.range 1 (by omega) l hL.2.1⟩
+  -- the two sides are apart
+  have apart : ∀ d e, (VC m d l ∨ VC m d (m.β 1 r)) → (VC m e (m.β 1 l) ∨ VC m e r) → ¬ VC m d e := by
+    intro d e hd he c
+    rcases hd with hd | hd <;> rcases he with he | he
+    · exact s2 (SameCell.trans (SameCell.symm hd) (SameCell.trans c he))
+    · exact s1 (SameCell.trans (SameCell.symm hd) (SameCell.trans c he))
+    · exact s4 (SameCell.trans (SameCell.symm hd) (SameCell.trans c he))
+    · exact s3 (SameCell.trans (SameCell.symm hd) (SameCell.trans c he))
+  have RAB : ∀ d e, R d e → (VC m e (m.β 1 l) ∨ VC m e r) → (VC m d (m.β 1 l) ∨ VC m d r) := by
+    intro d e hde he
+    rcases (hR' d e).1 hde with c | ⟨_, c2⟩ | ⟨_, c2⟩
+    · rcases he with he | he
+      · exact Or.inl (SameCell.trans c he)
+      · exact Or.inr (SameCell.trans c he)
+    · exact absurd c2 (apart _ _ (Or.inr (.refl _)) he)
+    · exact absurd c2 (apart _ _ (Or.inl (.refl _)) he)
+  -- (F1) outside the four cells nothing changes
+  have F1 : ∀ d, ¬ VC m d l → ¬ VC m d (m.β 1 r) → ¬ VC m d (m.β 1 l) → ¬ VC m d r →
+      ∀ x, VC (link2 m l r) d x ↔ VC m d x := by
+    intro d n1 n2 n3 n4 x
+    have Rd : ∀ y, R d y → VC m d y := by
+      intro y hy
+      rcases (hR' d y).1 hy with c | ⟨c, _⟩ | ⟨c, _⟩
+      · exact c
+      · exact absurd c n1
+      · exact absurd c n2
+    constructor
+    · intro c
+      rcases (hcells d x).1 c with c1 | ⟨c1, _⟩ | ⟨c1, _⟩
+      · exact Rd x c1
+      · exact absurd (Rd _ c1) n4
+      · exact absurd (Rd _ c1) n3
+    · intro c
+      exact (hcells d x).2 (Or.inl ((hR' d x).2 (Or.inl c)))
+  have F2 : ∀ d, (VC m d l ∨ VC m d (m.β 1 r)) → VC (link2 m l r) d l := by
+    intro d hd
+    refine (hcells d l).2 (Or.inl ((hR' d l).2 ?_))
+    rcases hd with c | c
+    · exact Or.inl c
+    · exact Or.inr (Or.inr ⟨c, .refl _⟩)
+  have F3 : ∀ d, (VC m d (m.β 1 l) ∨ VC m d r) → VC (link2 m l r) d r := by
+    intro d hd
+    have Rrefl : ∀ z, R z z := fun z => (hR' z z).2 (Or.inl (.refl z))
+    rcases hd with c | c
+    · exact (hcells d r).2 (Or.inr (Or.inr ⟨(hR' _ _).2 (Or.inl c), Rrefl r⟩))
+    · exact (hcells d r).2 (Or.inl ((hR' _ _).2 (Or.inl c)))
+  have F4 : ¬ VC (link2 m l r) l r := by
+    intro c
+    have nlr : ¬ R l r := fun hh => by
+      rcases RAB l r hh (Or.inr (.refl _)) with c | c
+      · exact s2 c
+      · exact s1 c
+    have nlq : ¬ R l (m.β 1 l) := fun hh => by
+      rcases RAB l _ hh (Or.inl (.refl _)) with c | c
+      · exact s2 c
+      · exact s1 c
+    rcases (hcells l r).1 c with c1 | ⟨c1, _⟩ | ⟨c1, _⟩
+    · exact nlr c1
+    · exact nlr c1
+    · exact nlq c1
+  obtain ⟨id1, id2⟩ := hids F4
+  -- the six identifiers and their sides
+  have va1 := cellId_VC hwf hVl
+  have vb1 := cellId_VC hwf hVp
+  have va2 := cellId_VC hwf hVq
+  have vb2 := cellId_VC hwf hVr
+  have A1 : VC m (cellId m .vertex l) l ∨ VC m (cellId m .vertex l) (m.β 1 r) := Or.inl (SameCell.symm va1.1)
+  have B1 : VC m (cellId m .vertex (m.β 1 r)) l ∨ VC m (cellId m .vertex (m.β 1 r)) (m.β 1 r) :=
+    Or.inr (SameCell.symm vb1.1)
+  have A2 : VC m (cellId m .vertex (m.β 1 l)) (m.β 1 l) ∨ VC m (cellId m .vertex (m.β 1 l)) r :=
+    Or.inl (SameCell.symm va2.1)
+  have B2 : VC m (cellId m .vertex r) (m.β 1 l) ∨ VC m (cellId m .vertex r) r := Or.inr (SameCell.symm vb2.1)
+  have C1 : VC m (cellId (link2 m l r) .vertex l) l ∨ VC m (cellId (link2 m l r) .vertex l) (m.β 1 r) := by
+    rw [id1]
+    rcases Nat.le_total (cellId m .vertex l) (cellId m .vertex (m.β 1 r)) with c | c
+    · rw [Nat.min_eq_left c]; exact A1
+    · rw [Nat.min_eq_right c]; exact B1
+  have C2 : VC m (cellId (link2 m l r) .vertex r) (m.β 1 l) ∨ VC m (cellId (link2 m l r) .vertex r) r := by
+    rw [id2]
+    rcases Nat.le_total (cellId m .vertex (m.β 1 l)) (cellId m .vertex r) with c | c
+    · rw [Nat.min_eq_left c]; exact A2
+    · rw [Nat.min_eq_right c]; exact B2
+  have ne_of : ∀ {x y : Nat}, (VC m x l ∨ VC m x (m.β 1 r)) → (VC m y (m.β 1 l) ∨ VC m y r) → x ≠ y := by
+    intro x y hx hy hxy
+    subst hxy
+    exact apart _ _ hx hy (.refl _)
+  have hatt1 : ∀ e, (link2 m l r).att 0 e = m.att 0 e := fun _ => rfl
+  have tail : ∀ e, m'.att 0 e = mb.att 0 e := by
+    intro e
+    rw [ME.other 0 e (zero_notin_storagesOf cfg 1), MD.other 0 e (zero_notin_storagesOf cfg 0),
+      MC.other 0 e (zero_notin_storagesOf cfg 0)]
+  have h0 : (0 : Nat) ∈ [0] := by simp
+  have stt : ∀ d, cellId m' .vertex d = cellId (link2 m l r) .vertex d := fun d => cellId_sameTopo st d
+  refine ⟨⟨i', ?_⟩, ?_, ?_, ?_⟩
+  · rw [ME.fc, MD.fc, MC.fc, MB.fc, MA.fc]; rfl
+  · intro d hd n1 n2 n3 n4
+    have hid : cellId (link2 m l r) .vertex d = cellId m .vertex d :=
+      cellId_eq_of_cells hwf hwf1 rfl hd (F1 d n1 n2 n3 n4)
+    obtain ⟨hcv, _⟩ := cellId_VC hwf hd
+    have nAB : ∀ z, (VC m z l ∨ VC m z (m.β 1 r)) → cellId m .vertex d ≠ z := by
+      intro z hz heq
+      subst heq
+      rcases hz with c | c
+      · exact n1 (SameCell.trans hcv c)
+      · exact n2 (SameCell.trans hcv c)
+    have nCD : ∀ z, (VC m z (m.β 1 l) ∨ VC m z r) → cellId m .vertex d ≠ z := by
+      intro z hz heq
+      subst heq
+      rcases hz with c | c
+      · exact n3 (SameCell.trans hcv c)
+      · exact n4 (SameCell.trans hcv c)
+    unfold pos
+    rw [stt, hid, tail, MB.frame 0 _ h0 (nCD _ C2) (nCD _ A2) (nCD _ B2),
+      MA.frame 0 _ h0 (nAB _ C1) (nAB _ A1) (nAB _ B1), hatt1]
+  · intro hcompat d hd hin
+    have hk : cellId (link2 m l r) .vertex d = cellId (link2 m l r) .vertex l :=
+      (C03_same_id_iff_same_cell hwf1 (pol := .vertex) trivial hd.1 hd.2 hVl.1 hVl.2).2.2 (F2 d hin)
+    unfold pos
+    rw [stt, hk, tail, MB.frame 0 _ h0 (ne_of C1 C2) (ne_of C1 A2) (ne_of C1 B2)]
+    by_cases hids' : cellId m .vertex l = cellId m .vertex (m.β 1 r)
+    · rw [MA.moved hids' 0 h0, hatt1, ← hids', or_self']
+    · obtain ⟨v, hv, hout⟩ := MA.merged hids' 0 h0
+      rw [hlaw, hatt1, hatt1] at hv
+      rw [hout]
+      exact (mergeVal_avg hv hcompat).symm
+  · intro hcompat d hd hin
+    have hk : cellId (link2 m l r) .vertex d = cellId (link2 m l r) .vertex r :=
+      (C03_same_id_iff_same_cell hwf1 (pol := .vertex) trivial hd.1 hd.2 hVr.1 hVr.2).2.2 (F3 d hin)
+    have ea : ma.att 0 (cellId m .vertex (m.β 1 l)) = m.att 0 (cellId m .vertex (m.β 1 l)) := by
+      rw [MA.frame 0 _ h0 (ne_of C1 A2).symm (ne_of A1 A2).symm (ne_of B1 A2).symm, hatt1]
+    have eb : ma.att 0 (cellId m .vertex r) = m.att 0 (cellId m .vertex r) := by
+      rw [MA.frame 0 _ h0 (ne_of C1 B2).symm (ne_of A1 B2).symm (ne_of B1 B2).symm, hatt1]
+    unfold pos
+    rw [stt, hk, tail]
+    by_cases hids' : cellId m .vertex (m.β 1 l) = cellId m .vertex r
+    · rw [MB.moved hids' 0 h0, ea, ← hids', or_self']
+    · obtain ⟨v, hv, hout⟩ := MB.merged hids' 0 h0
+      rw [hlaw, ea, eb] at hv
+      rw [hout]
+      exact (mergeVal_avg hv hcompat).symm
+
 end HC.PosCalc
